@@ -4,6 +4,7 @@ symbolic heap of state.py, producing proof obligations.  See DESIGN.md section 2
 No repository code is imported or executed here; the bodies are ast nodes from functable.
 """
 import ast
+import os
 import z3
 
 from .vals import (Val, I, B, NONE, ABSENT, vbool, vint, vreal, vstr, vref, vcls, is_none, is_absent,
@@ -73,9 +74,11 @@ class Engine:
         self.site = []                # call-site stack for obligation naming
         self.dry = False
         self.cur_target = None
-        self.feas_timeout = 2000
+        self.feas_timeout = int(os.environ.get("PYVC_FEAS_MS", "500"))
         self.callee_hashes = {}
-        for n in list(CLS.ids):
+        for sn in SENTINELS:
+            CLS.add(sn, ("object",))         # the falsy sentinel classes: registered up front so that truthiness
+        for n in list(CLS.ids):              # is the same term whenever it is built
             self.known.add(n)
 
     # ------------------------------------------------------------------ utilities
@@ -289,8 +292,7 @@ class Engine:
             ref_t = z3.If(z3.Or(c == LIST, c == TUP), st.get("llen", a) > 0,
                     z3.If(z3.Or(c == DICT, c == SET), st.get("dsize", a) > 0,
                     z3.If(z3.Or(c == FN, c == MT), True, self.obj_truthy(st, a, c))))
-            sent = z3.Or(*[c_of(v) == CLS.cid(s) for s in SENTINELS if s in CLS.ids]) if any(
-                s in CLS.ids for s in SENTINELS) else z3.BoolVal(False)
+            sent = z3.Or(*[c_of(v) == CLS.cid(s) for s in SENTINELS])
             return z3.If(is_none(v), False,
                    z3.If(is_bool(v), b_of(v),
                    z3.If(is_int(v), i_of(v) != 0,
@@ -356,12 +358,14 @@ class Engine:
         return vref(a)
 
     # ---- write permission (frames / modifies) --------------------------
-    def check_write(self, st, addr, what):
+    def check_write(self, st, addr, what, cond=None):
         """every heap write must target an object the current frames allow (or one allocated since)."""
         for i, fr in enumerate(st.frames):
             ok = fr["allow"](addr)
-            self.oblige(st, "%s.frame[%s]" % (fr["owner"], fr["label"]),
-                        z3.Or(ok, addr >= fr["alloc"]), kind="frame",
+            g = z3.Or(ok, addr >= fr["alloc"])
+            if cond is not None:
+                g = z3.Implies(cond, g)
+            self.oblige(st, "%s.frame[%s]" % (fr["owner"], fr["label"]), g, kind="frame",
                         meta={"what": what})
 
     def write(self, st, comp, addr, value, what=""):
@@ -772,10 +776,16 @@ class Engine:
                     h.env[nme] = fresh("lv_" + nme)
             mods = spec.modifies(lc, pre)
             for a in mods:
+                cond = None
+                if isinstance(a, tuple):
+                    a, cond = a
                 for comp in HEAP_SORTS:
                     if comp == "cls_of":
                         continue
-                    h.heap[comp] = z3.Store(h.heap[comp], a, fresh("lh_" + comp, HEAP_SORTS[comp].range()))
+                    new = fresh("lh_" + comp, HEAP_SORTS[comp].range())
+                    if cond is not None:
+                        new = z3.If(cond, new, z3.Select(h.heap[comp], a))
+                    h.heap[comp] = z3.Store(h.heap[comp], a, new)
             na = fresh("alloc", I)
             h.assume(na >= pre.alloc)
             h.alloc = na
@@ -791,8 +801,11 @@ class Engine:
         for nm, g in spec.inv(lc, h, i):
             h.assume(g)
         allow_addrs = list(mods)
-        fr = {"owner": label, "label": "modifies", "alloc": h.alloc,
-              "allow": (lambda addr, A=allow_addrs: z3.Or(*[addr == a for a in A]) if A else z3.BoolVal(False))}
+
+        def loop_allow(addr, A=allow_addrs):
+            alts = [z3.And(addr == m[0], m[1]) if isinstance(m, tuple) else addr == m for m in A]
+            return z3.Or(*alts) if alts else z3.BoolVal(False)
+        fr = {"owner": label, "label": "modifies", "alloc": h.alloc, "allow": loop_allow}
         h.frames = h.frames + (fr,)
         starts = []
         if plan is not None:
@@ -1502,6 +1515,8 @@ class Engine:
             return self.models.builtin(self, st, f.name, pos, kw, fx, node)
         if type(f).__name__ == "PMeth":
             return self.models.method_call(self, st, f.recv, f.name, pos, kw, fx)
+        if hasattr(f, "pcall"):
+            return f.pcall(self, st, pos, kw, fx)          # engine-level objects defined by contract modules
         if isinstance(f, PClass):
             return self.instantiate(st, f, pos, kw, fx)
         if is_val(f):
